@@ -452,6 +452,39 @@ func (f *Formatter) renderInlineChildren(n *html.Node) string {
 	return strings.TrimSpace(b.String())
 }
 
+// isTagStart reports whether c after a '<' would make the parser open a tag.
+func isTagStart(c byte) bool {
+	return c >= 'a' && c <= 'z' || c >= 'A' && c <= 'Z' || c == '/' || c == '!' || c == '?'
+}
+
+// isRefStart reports whether c after an '&' would start a character reference.
+func isRefStart(c byte) bool {
+	return c >= 'a' && c <= 'z' || c >= 'A' && c <= 'Z' || c >= '0' && c <= '9' || c == '#'
+}
+
+// escapeAttr makes a (whitespace-normalised) attribute value safe between
+// double quotes: the quote itself and an ampersand that would be read as
+// the start of a character reference are written as references. Operators
+// such as && or "a & b" stay as they are.
+func escapeAttr(s string) string {
+	if !strings.ContainsAny(s, "\"&") {
+		return s
+	}
+	var b strings.Builder
+	b.Grow(len(s) + 8)
+	for i := 0; i < len(s); i++ {
+		switch c := s[i]; {
+		case c == '"':
+			b.WriteString("&quot;")
+		case c == '&' && i+1 < len(s) && isRefStart(s[i+1]):
+			b.WriteString("&amp;")
+		default:
+			b.WriteByte(c)
+		}
+	}
+	return b.String()
+}
+
 // escapeText escapes HTML-significant characters (&, <, >) in text content.
 // Content inside {{ }} template expressions is preserved as-is to avoid
 // breaking template syntax like {{ a < b }}.
@@ -463,8 +496,21 @@ func escapeText(s string) string {
 		if i+1 < len(s) && s[i] == '{' && s[i+1] == '{' {
 			end := strings.Index(s[i+2:], "}}")
 			if end != -1 {
-				b.WriteString(s[i : i+2+end+2])
-				i += 2 + end + 2
+				// The expression is kept, except for a '<' that would open a
+				// tag and an '&' that would start a character reference when
+				// the output is parsed again; both decode back to themselves.
+				stop := i + 2 + end + 2
+				for j := i; j < stop; j++ {
+					switch c := s[j]; {
+					case c == '<' && j+1 < len(s) && isTagStart(s[j+1]):
+						b.WriteString("&lt;")
+					case c == '&' && j+1 < len(s) && isRefStart(s[j+1]):
+						b.WriteString("&amp;")
+					default:
+						b.WriteByte(c)
+					}
+				}
+				i = stop
 				continue
 			}
 		}
@@ -550,7 +596,7 @@ func (f *Formatter) renderOpenTag(n *html.Node) string {
 		buf.WriteString(attr.Key)
 		if attr.Val != "" {
 			buf.WriteString("=\"")
-			buf.WriteString(helpers.FormatAttr(attr.Val))
+			buf.WriteString(escapeAttr(helpers.FormatAttr(attr.Val)))
 			buf.WriteString("\"")
 		}
 	}
